@@ -69,7 +69,11 @@ def neutral(x, depth=0):
     if np is not None and isinstance(x, np.ndarray) and x.ndim == 0:
         return neutral(x.item(), depth + 1)
     if np is not None and isinstance(x, np.ndarray):
-        return {'array': [neutral(v, depth + 1) for v in x.tolist()] if x.ndim else neutral(x.item()), 'shape': list(x.shape)}
+        def nest(a):
+            if a.ndim <= 1:
+                return [neutral(v, depth + 1) for v in a.tolist()]
+            return [nest(r) for r in a]
+        return {'array': nest(x), 'shape': list(x.shape)}
     if isinstance(x, (list, tuple)):
         return {'seq': [neutral(v, depth + 1) for v in x]}
     if isinstance(x, (set, frozenset)):
